@@ -64,6 +64,15 @@ func c06Pool(g *gen.Gen, rng *rand.Rand, n int) []c06Line {
 		}
 		pool = append(pool, c06Line{raw: raw, obj: true, tag: tag, cls: cls})
 	}
+	// every search operator on a selected and on a non-selected path (history
+	// dependence through shared operator tables shows only when one operator
+	// occurs on different paths within one run)
+	for i, cs := range g.SearchCatalogue([]string{"name", "score", "address.city"}) {
+		if i%2 == 0 || n >= 1000 {
+			tag := mark(cs.Line)
+			pool = append(pool, c06Line{raw: cs.Line.Bytes(jt.Plain), obj: true, tag: tag, cls: "search-catalogue"})
+		}
+	}
 	// degenerate but valid objects
 	for _, s := range []string{`{}`, `{"ctx":"vqE1m"}`, `{"ctx":"vqE2m","attr":null}`, `{"ctx":"vqE3m","attr":[]}`, `{"ctx":"vqE4m","c":"COMMAND","attr":{"command":"notadoc","ns":5}}`, `{"ctx":"vqE5m","c":"WRITE","msg":"Slow query","attr":{}}`} {
 		tag := ""
@@ -199,7 +208,7 @@ func C06() int {
 	c.Set("pool_non_object_lines", len(nonIdx))
 	nseq := pickN(c, 64, 1500)
 	maxLen := pickN(c, 160, 2000)
-	fsets := []Flags{{}, {W: true}, {F: "db"}, {N: true, B: true, I: true, W: true, R: sp("[x]")}, {F: "dbone", W: true}}
+	fsets := []Flags{{}, {W: true}, {F: "db"}, {N: true, B: true, I: true, W: true, R: sp("[x]")}, {F: "dbone", W: true}, {Z: "^(name|ssn|tags|qty)$", N: true, B: true}, {Z: "(?i)city|mail"}}
 	var chans []c06Chan
 	for _, in := range []string{"file", "gz", "gzmulti", "GZ", "stdin"} {
 		for _, out := range []string{"stdout", "ofile"} {
@@ -232,6 +241,21 @@ func C06() int {
 				S = append(S, pool[nonIdx[r.Intn(len(nonIdx))]])
 			} else {
 				S = append(S, pool[objIdx[r.Intn(len(objIdx))]])
+			}
+		}
+		if si%6 == 2 && len(S) > 0 {
+			// reader-buffer boundaries: a line of exactly k×4096 (±1) bytes as the LAST line
+			// (the no-final-newline variants then end exactly on a buffer boundary) and in the middle
+			L := []int{4096, 8192, 12288, 16384, 4095, 4097, 32768, 20480, 8191, 61440}[(si/6)%10]
+			last := pool[objIdx[r.Intn(len(objIdx))]]
+			for tries := 0; tries < 20 && len(last.raw) >= L-20; tries++ {
+				last = pool[objIdx[r.Intn(len(objIdx))]]
+			}
+			if p, ok := c06PadTo(last, L); ok {
+				S = append(S, p)
+				if len(S) > 3 {
+					S[len(S)/2] = p
+				}
 			}
 		}
 		if si%5 == 1 { // blank lines at the very end (progress-bar special case)
@@ -304,7 +328,7 @@ func C06() int {
 		}
 		<-smu
 		for i, o := range outs {
-			k := f.String() + "|" + string(objs[i].raw)
+			k := f.String() + "\x00" + string(objs[i].raw)
 			if prev, seen := singles[k]; seen && !bytes.Equal(prev, o) {
 				smu <- struct{}{}
 				c.Violation("context-dependent-line", fmt.Sprintf("input line with marker %s yields different output in two different logs (flags %s)", objs[i].tag, f), desc(base))
@@ -409,7 +433,7 @@ func c06Singles(s *sut.SUT, c *ev.Check, singles map[string][]byte, budget int, 
 	}
 	parallelDo(len(keys), func(i int) {
 		k := keys[i]
-		cut := strings.Index(k, "|")
+		cut := strings.Index(k, "\x00")
 		f, line := fl[k[:cut]], []byte(k[cut+1:])
 		o, r := c06Run(s, f, i, []c06Line{{raw: line, obj: true}}, c06Chan{"file", "stdout", false, true})
 		c.Count("singleton_reference_runs", 1)
@@ -423,4 +447,20 @@ func c06Singles(s *sut.SUT, c *ev.Check, singles map[string][]byte, budget int, 
 				map[string]any{"kind": "redact-line", "flags": f.Args(0, ""), "input": string(line), "output": string(singles[k])})
 		}
 	})
+}
+
+// c06PadTo returns the object line with an extra string member appended so
+// that it is exactly n bytes long.
+func c06PadTo(l c06Line, n int) (c06Line, bool) {
+	raw := bytes.TrimRight(l.raw, " \t")
+	const pre = `,"padding":"`
+	need := n - len(raw) - len(pre) - 1
+	if !l.obj || need < 0 || len(raw) < 2 || raw[len(raw)-1] != '}' || bytes.TrimSpace(raw)[0] != '{' || bytes.Equal(bytes.TrimSpace(raw), []byte("{}")) {
+		return l, false
+	}
+	out := append([]byte{}, raw[:len(raw)-1]...)
+	out = append(out, pre...)
+	out = append(out, bytes.Repeat([]byte("p"), need)...)
+	out = append(out, '"', '}')
+	return c06Line{raw: out, obj: true, tag: l.tag, cls: "padded"}, len(out) == n
 }
